@@ -491,4 +491,34 @@ CHECKS = {
                "walk by induction over steps for all oracle streams) + "
                "vm_compute correspondence + exact multiset / spectrum search",
  },
+ "C06": {
+  "text": "Model: memoised values are cells of a store handed out by "
+          "reference; a query reads the store, answers, and may leave an "
+          "edit. Theorems: after ANY sequence of queries that leave the "
+          "cells as they found them every query answers as on the untouched "
+          "object, and repeating a query gives an equal value; the library's "
+          "save / restore idiom is pure; an edit that is not undone is seen "
+          "by a later reader (witness). Tied to the source by an alias "
+          "analysis over every function of src/pyunicorn (regenerated each "
+          "run): in the current tree no function leaves an in-place edit of "
+          "a memoised value behind, no public function edits a caller's "
+          "array without documenting it, and to_cy always copies "
+          "(vm_compute over the regenerated table). Correspondence: every "
+          "array handed out during the query sequences is snapshotted and "
+          "re-compared after every later query (47 000 comparisons in the "
+          "quick tier); an edit observed at run time that the table does not "
+          "list breaks the correspondence. Search: all orders sampled on 11 "
+          "object families against fresh objects, 41 caller-array scenarios, "
+          "six climate classes on one shared ClimateData.",
+  "design_ref": "DESIGN.md section 5, C06",
+  "note": "trusted: the alias analysis py_purity_facts.py (views vs copies "
+          "by syntactic rules; unknown calls are taken as non-editing; "
+          "edits of object attributes are not tracked) — its misses are what "
+          "the run-time snapshots are for; purity of a function is read off "
+          "the table, not proved from Python semantics",
+  "technique": "Coq proofs (noninterference by induction over query "
+               "sequences in a store model; regenerated edit table decided "
+               "by vm_compute) + run-time snapshot correspondence + "
+               "fresh-object differential search",
+ },
 }
